@@ -53,15 +53,26 @@ def uniform_history(r):
     the same length with the same transaction boundaries, and only the
     comparison of record positions can tell that it is stale."""
     size = r.choice((0, 10, 100))
-    noids = r.choice((1, 2, 3))
-    a = noids + r.randint(1, 5)
+    noids = r.choice((2, 2, 3))
+    a = r.randint(3, 8)
 
-    def txn(i):
-        return {'op': 'txn', 'recs': [{'o': 1 + i % noids, 'size': size}]}
-    ops = [txn(i) for i in range(a)]
+    def txn(o):
+        return {'op': 'txn', 'recs': [{'o': 1 + o, 'size': size}]}
+    seq = [r.randrange(noids) for _ in range(a)]
+    ops = [txn(o) for o in seq]
     ops.append({'op': 'reopen'})
     ops.append({'op': 'pack', 'where': 'after_all'})
-    ops += [txn(a + i) for i in range(a - noids)]
+    # the pack drops the superseded revisions: as many commits again bring
+    # the file back to its old length; the last one writes the object the
+    # old last transaction wrote (the only records the sanity check of a
+    # saved index looks at)
+    k = a - len(set(seq))
+    if r.random() < 0.2:
+        k += r.choice((-1, 1))
+    post = [r.randrange(noids) for _ in range(max(0, k - 1))]
+    if k >= 1:
+        post.append(seq[-1])
+    ops += [txn(o) for o in post]
     if r.random() < 0.5:
         ops.append({'op': 'reopen'})
     return ops
@@ -99,7 +110,30 @@ class Opener:
 
     def flag(self, oracle, detail):
         if len(self.viol) < 20:
-            self.viol.append((oracle, detail))
+            self.viol.append((getattr(self, 'fam', '') + oracle, detail))
+
+    def passes_documented_sanity(self, fs):
+        """True if the index file beside the data file is one that
+        FileStorage's sanity check of a saved index accepts *by design*:
+        its position is a transaction boundary of this file and the first
+        five records of the last non-empty transaction before it lie where
+        the index says.  (Decided with the independent parser.)"""
+        try:
+            from ZODB.fsIndex import fsIndex
+            info = fsIndex.load(IDX)
+            pos, index = info['pos'], info['index']
+            txns, end, problems, recs_at = fsparse.parse(fs.read_bytes(PATH))
+        except Exception:       # noqa: B902
+            return False
+        if pos < 100:
+            return False
+        before = [t for t in txns if t.end <= pos]
+        if not before or before[-1].end != pos:
+            return False
+        for t in reversed(before):
+            if t.recs:
+                return all(index.get(x.oid) == x.pos for x in t.recs[:5])
+        return False
 
     def bump(self, k):
         self.stats[k] = self.stats.get(k, 0) + 1
@@ -135,6 +169,19 @@ class Opener:
                 zlib.crc32(fs.read_bytes(PATH)),
                 zlib.crc32(fs.read_bytes(IDX)) if IDX in fs.names else 0,
                 label.split(' ')[0]))
+        self.fam = ''
+        if 'stale' in label.split(' ')[0] and \
+                self.passes_documented_sanity(fs):
+            # known finding: only the last transaction is compared
+            self.fam = 'stale-index-passes-sanity/'
+            self.bump('stale_index_passing_sanity')
+        try:
+            return self._open_variant(fs, label, model, ref, deep)
+        finally:
+            self.fam = ''
+
+    def _open_variant(self, fs, label, model, ref, deep):
+        from ZODB.FileStorage import FileStorage
         try:
             st = FileStorage(PATH)
         except Exception as e:      # noqa: B902
